@@ -1,5 +1,6 @@
 mod cmd_lin;
 mod c14probe;
+mod cmd_heapisa;
 mod cmd_wtstages;
 mod cmd_sizes;
 mod gen_families;
@@ -108,6 +109,9 @@ fn main() {
             let which = &arg(1)[8..];
             cmd_backend::cmd_codegen(which, num(2, 1), num(3, 0) as usize, &mut *out, &args[5.min(args.len())..]);
         }
+        "heapgen-x86" | "heapgen-a64" | "heapgen-rv" => cmd_heapisa::cmd_heapgen(&arg(1)[8..], num(2, 1), num(3, 0) as usize, &mut *out, &args[5.min(args.len())..]),
+        "c10-a64" | "c10-rv" => cmd_heapisa::cmd_c10_isa(&arg(1)[4..], &mut *out, &args[5.min(args.len())..]),
+        "gen-heapwide" => { cmd_heapisa::cmd_write_wide(arg(2)); return; }
         "c10-x86" => cmd_backend::cmd_c10("x86", num(2, 1), num(3, 0) as usize, &mut *out, &args[5.min(args.len())..]),
         "native-x86" => cmd_native::cmd_native_x86(num(2, 1), num(3, 0) as usize, &mut *out, &args[5.min(args.len())..]),
         "stages-text" => { cmd_det::cmd_stages_text(arg(2)); return; }
